@@ -54,6 +54,10 @@ Init == \/ /\ prop = "C05" /\ n \in 1..MaxN /\ bounded \in BOOLEAN
                                    \* re-sampled point is h at THAT point.  lh_other_type: the Lipschitz constant given as a positive number that is not a
                                    \* Python float (int for the l2-norm, numpy.float32 for l1) - "a positive number" is all the guide asks for
                                    \cup (IF ~args THEN {"averaging", "lh_other_type"} ELSE {})
+                                   \* strong_regulariser: lambda three to four decades ABOVE |A|^2 ("lambda over several decades"), every component deep inside
+                                   \* its kink interval (solution 0): the smoothed-FISTA step solver's theoretical iteration count exceeds its cap, so the
+                                   \* smoothing parameter and the number of iterations actually run must come from the same (capped) count
+                                   \cup (IF reg = "l1" /\ \A i \in 1..n : status[i] = "zero_strict" THEN {"strong_regulariser"} ELSE {})
 Next == UNCHANGED vars
 Spec == Init /\ [][Next]_vars
 Emit == PrintT("PROBLEM" \o ToJson([prop |-> prop, n |-> n, status |-> status, mclass |-> mclass, x0class |-> x0class, scaling |-> scaling,
